@@ -3,12 +3,6 @@
   in every validation mode.  Property theorems only.
 -/
 import StVerif.Lemmas.UtfStd
-import StVerif.Lemmas.KernelBridge
-import StVerif.Lemmas.KernelLoops
-import StVerif.Lemmas.KernelLoopsUtf32
-import StVerif.Lemmas.KernelLoopsUtf8
-import StVerif.Lemmas.KernelLoopsMisc
-import StVerif.Lemmas.KernelLoopsValidate
 
 namespace StVerif.Props.C01
 open StVerif StVerif.Utf StVerif.Generated StVerif.Lemmas.Utf
@@ -93,41 +87,5 @@ theorem string_to_std (dst : Enc) (subst : Bool) (s : List Nat) (hs : ∀ c ∈ 
 example : ∀ c ∈ [0, 0x7F, 0x80, 0x7FF, 0x800, 0xD7FF, 0xE000, 0xFFFF, 0x10000, 0x10FFFF], Scalar c := by decide
 example : stdEnc .utf8 [0x41, 0xE9, 0x20AC, 0x1F600] = [0x41, 0xC3, 0xA9, 0xE2, 0x82, 0xAC, 0xF0, 0x9F, 0x98, 0x80] := by decide
 example : stdEnc .utf16 [0x41, 0x1F600] = [0x41, 0xD83D, 0xDE00] := by decide
-
-/-! ### tie to the source (tools/gen_kernels.py): the encoders and decoders as translated from the C++ on every run -/
-
-/-- the translated `write_utf8 / write_utf16 / utf8_measure / utf16_measure` and the translated decoding loops are the
-    model's functions, for every code point and every source: a changed mask, shift or range test in
-    include/st_utf_conv_priv.h changes the left-hand sides and this theorem stops checking -/
-theorem kernels_are_model (ch : Nat) (mem : List Nat) :
-    Kernels.write_utf8 ch = .ok (match writeUtf8 ch with | some us => ((0 : Int), us) | none => ((4 : Int), [])) ∧
-    Kernels.write_utf16 ch = .ok (match writeUtf16 ch with | some us => ((0 : Int), us) | none => ((4 : Int), [])) ∧
-    Kernels.utf8_measure ch = .ok (utf8Measure ch) ∧ Kernels.utf16_measure ch = .ok (utf16Measure ch) ∧
-    KernelBridge.stepLoop Kernels.extract_utf8 mem (mem.length + 1) 0 = .ok (decodeUtf8 mem) ∧
-    KernelBridge.stepLoop Kernels.extract_utf16 mem (mem.length + 1) 0 = .ok (decodeUtf16 mem) :=
-  ⟨KernelBridge.write_utf8_eq ch, KernelBridge.write_utf16_eq ch, KernelBridge.utf8_measure_eq ch, KernelBridge.utf16_measure_eq ch,
-   KernelBridge.utf8_loop_eq mem, KernelBridge.utf16_loop_eq mem⟩
-
-/-- composed with the model theorems: the translated encoder applied to a scalar is its standard UTF-8 / UTF-16 form -/
-example : Kernels.write_utf8 0x20AC = .ok ((0 : Int), [0xE2, 0x82, 0xAC]) ∧ Kernels.write_utf16 0x1F600 = .ok ((0 : Int), [0xD83D, 0xDE00]) := by
-  decide
-
-open StVerif.KernelBridge in
-/-- the filling passes of include/st_utf_conv_priv.h as translated from the C++ on every run (tools/gen_kernels.py) are
-    the model's `fill` over the model's decoder, in every mode (UTF-16 sources: units below 2^16), and the translated
-    `validate_utf8` is the model's validator: the theorems of this file are about what the code says now -/
-theorem conversion_loops_are_model (mem : List Nat) (m : Mode) (subst : Bool) (fuel : Nat) (hf : mem.length < fuel) :
-    Kernels.utf16_convert_from_utf8 mem fuel 0 mem.length (modeCode m) = fillResult (fill (stepCh .utf8 .utf16 m subst) (decode .utf8 mem)) ∧
-    Kernels.utf32_convert_from_utf8 mem fuel 0 mem.length (modeCode m) = fillResult (fill (stepCh .utf8 .utf32 m subst) (decode .utf8 mem)) ∧
-    Kernels.utf8_convert_from_utf32 mem fuel 0 mem.length (modeCode m) = fillResult (fill (stepCh .utf32 .utf8 m subst) (decode .utf32 mem)) ∧
-    Kernels.utf16_convert_from_utf32 mem fuel 0 mem.length (modeCode m) = fillResult (fill (stepCh .utf32 .utf16 m subst) (decode .utf32 mem)) ∧
-    ((∀ u ∈ mem, u < 65536) →
-      Kernels.utf8_convert_from_utf16 mem fuel 0 mem.length (modeCode m) = fillResult (fill (stepCh .utf16 .utf8 m subst) (decode .utf16 mem)) ∧
-      Kernels.utf32_convert_from_utf16 mem fuel 0 mem.length (modeCode m) = fillResult (fill (stepCh .utf16 .utf32 m subst) (decode .utf16 mem))) ∧
-    Kernels.validate_utf8 mem fuel 0 mem.length = .ok ((validateUtf8 mem : Nat) : Int) :=
-  ⟨utf16_convert_from_utf8_eq mem m subst fuel hf, utf32_convert_from_utf8_eq mem m subst fuel hf,
-   utf8_convert_from_utf32_eq mem m subst fuel hf, utf16_convert_from_utf32_eq mem m subst fuel hf,
-   fun hu => ⟨utf8_convert_from_utf16_eq mem m subst hu fuel hf, utf32_convert_from_utf16_eq mem m subst hu fuel hf⟩,
-   validate_utf8_eq mem fuel hf⟩
 
 end StVerif.Props.C01
